@@ -88,9 +88,18 @@ class GPTNeoXAssignment(WorkAssignment):
         elif set(self.pipe_parallel_peers) == set(self.data_parallel_peers):
             self.pipe_parallel_peer_group = self.data_parallel_group
         else:
-            self.pipe_parallel_peer_group = dist.new_group(
-                self.pipe_parallel_peers,
-            )
+            # dist.new_group() must be entered by every rank in the world
+            # with the same ranks and in the same order, so every rank
+            # creates the peer group of every pipeline stage.
+            for stage in range(topology.get_dim('pipe')):
+                stage_peers = [
+                    r
+                    for r in range(topology.world_size())
+                    if topology.get_coord(r).pipe == stage
+                ]
+                group = dist.new_group(stage_peers)
+                if stage == self.pipe_parallel_rank:
+                    self.pipe_parallel_peer_group = group
 
         worker_loads = [0.0 for _ in self.pipe_parallel_peers]
         self._inv_assignments = {
